@@ -93,13 +93,18 @@ pub fn c16(tier: &str, seed: u64) -> Vec<Case> {
         let ips: Vec<IpAddr> = (0..nips).map(|_| if r.chance(1, 2) { IpAddr::V4(Ipv4Addr::from(r.below(6) as u32 + 0x0A000000)) } else { IpAddr::V6(Ipv6Addr::from(r.below(6) as u128 + (0xFE80u128 << 112))) }).collect();
         let ports: Vec<u16> = (0..r.below(5)).map(|_| 8000 + r.below(6) as u16).collect();
         let name = format!("inst{}", r.below(3));
-        let mk = |ips: &[IpAddr], ports: &[u16], nm: &str| { let mut i = InstanceInformation::new(nm.to_string()); for x in ips { i = i.with_ip_address(*x); } for p in ports { i = i.with_port(*p); } i };
+        // the same attribute map inserted in ascending and in descending key order
+        let nattr = *r.pick(&[0usize, 1, 2, 5, 16]);
+        let attrs: Vec<(String, Option<String>)> = (0..nattr).map(|k| (format!("key{}", k), if k % 3 == 0 { None } else { Some(format!("v{}", k)) })).collect();
+        let mk0 = |ips: &[IpAddr], ports: &[u16], nm: &str| { let mut i = InstanceInformation::new(nm.to_string()); for x in ips { i = i.with_ip_address(*x); } for p in ports { i = i.with_port(*p); } i };
+        let mk = |ips: &[IpAddr], ports: &[u16], nm: &str| { let mut i = mk0(ips, ports, nm); for (k, val) in attrs.iter() { i = i.with_attribute(k.clone(), val.clone()); } i };
+        let mk_rev = |ips: &[IpAddr], ports: &[u16], nm: &str| { let mut i = mk0(ips, ports, nm); for (k, val) in attrs.iter().rev() { i = i.with_attribute(k.clone(), val.clone()); } i };
         let a = mk(&ips, &ports, &name);
         let (mut ips2, mut ports2) = (ips.clone(), ports.clone());
         ips2.reverse(); ports2.rotate_left(ports.len().min(1));
         if r.chance(1, 4) { ports2.push(9); }
         let name2 = if r.chance(1, 8) { "other".to_string() } else { name.clone() };
-        let b = mk(&ips2, &ports2, &name2);
+        let b = mk_rev(&ips2, &ports2, &name2);
         let (eq, heq) = (a == b, h(&a) == h(&b));
         let show = |i: &InstanceInformation, nm: &str| {
             let mut s = text::hex(nm.as_bytes());
